@@ -18,6 +18,7 @@ inductive Body where
   | anthropicError              -- {"type":"error","error":{"type":<string>,"message":<non-empty string>}}
   | anthropicMessage            -- {"type":"message",…}: a completion translated into the Anthropic dialect
   | sse (hasContent : Bool)     -- an Anthropic event stream message_start … message_stop; `false` = no content block at all
+  | sseBroken                   -- an Anthropic event stream that began and ends in an `error` event, without message_stop
   | empty
   | other                       -- anything else (an error object of another dialect, HTML, …)
 deriving Repr, DecidableEq, Inhabited
